@@ -10,6 +10,10 @@ from .common import REPO, WS, WORK, SUPPORT, ToolError, ensure_dir, sh, log, Tim
 
 CARGO_ENV = {"CARGO_NET_OFFLINE": "true", "CARGO_TERM_COLOR": "never"}
 
+NOSTD_DEP_LINES = {
+    "serde": 'serde = { version = "1", default-features = false, features = ["alloc"] }',
+}
+
 DEP_LINES = {
     "serde": 'serde = { version = "1", features = ["derive"] }',
     "serde_json": 'serde_json = "1"',
@@ -86,7 +90,9 @@ class Crate:
             if not self.lib:
                 f.write('vsupport = { path = "../vsupport" }\n')
             for d in self.deps:
-                f.write(DEP_LINES[d] + "\n")
+                # a #![no_std] crate must not pull std in through its dependencies either: with std anywhere in the
+                # crate graph, std-only inherent methods (f64::powi, ..) resolve even in a no_std crate
+                f.write((NOSTD_DEP_LINES.get(d) if self.no_default and d in NOSTD_DEP_LINES else DEP_LINES[d]) + "\n")
         for k, src in self.files.items():
             with open(os.path.join(self.dir, "src", "d", k + ".rs"), "w") as f:
                 f.write(src)
